@@ -53,15 +53,15 @@ impl HttpRequest {
     }
     pub async fn write_to(&self, socket: Writer<'_>) -> Result<(), Error> {
         let buf = format!("{} {} {}\r\n", self.method, self.resource, self.version);
-        socket.write(buf.as_bytes()).await.context("write error")?;
+        socket.write_all(buf.as_bytes()).await.context("write error")?;
         for (k, v) in &self.headers {
             socket
-                .write(format!("{}: {}\r\n", k, v).as_bytes())
+                .write_all(format!("{}: {}\r\n", k, v).as_bytes())
                 .await
                 .context("write error")?;
         }
         socket
-            .write("\r\n".as_bytes())
+            .write_all("\r\n".as_bytes())
             .await
             .context("write error")?;
         socket.flush().await.context("flush")
@@ -129,15 +129,15 @@ impl HttpResponse {
     }
     pub async fn write_to(&self, socket: Writer<'_>) -> Result<(), Error> {
         let buf = format!("{} {} {}\r\n", self.version, self.code, self.status);
-        socket.write(buf.as_bytes()).await.context("write error")?;
+        socket.write_all(buf.as_bytes()).await.context("write error")?;
         for (k, v) in &self.headers {
             socket
-                .write(format!("{}: {}\r\n", k, v).as_bytes())
+                .write_all(format!("{}: {}\r\n", k, v).as_bytes())
                 .await
                 .context("write error")?;
         }
         socket
-            .write("\r\n".as_bytes())
+            .write_all("\r\n".as_bytes())
             .await
             .context("write error")?;
         socket.flush().await.context("flush")
